@@ -93,7 +93,7 @@ func runC10(cx *Ctx, r *Report) {
 		margs := argsLoose(mint.ev)
 		ms := strings.Join(margs, " ; ")
 		ok := take.ev.Args[1].LooseString() == "addr(msg.Sender)" && lastArg(take.ev) == "coins(msg.Amount)" && lastArg(burn.ev) == "coins(msg.Amount)" &&
-			strings.Contains(ms, "getTokenByMinUnit(keeper, msg.Amount.Denom)#0.Contract") && strings.Contains(ms, "HexToAddress(msg.Receiver)") && strings.Contains(ms, "math.Int.BigInt(msg.Amount.Amount)")
+			recordFieldKeyedBy(mint.ev.Args, "Contract", "msg.Amount.Denom") && strings.Contains(ms, "HexToAddress(msg.Receiver)") && strings.Contains(ms, "math.Int.BigInt(msg.Amount.Amount)")
 		r.check(ok, "provenance", "SwapToERC20", mint.ev.Pos(cx), "signer pays coins(msg.Amount), the same coins are burned, and mint(contract of msg.Amount.Denom, msg.Receiver, msg.Amount.Amount) is called", "SwapToERC20 endpoints/amounts differ: take("+take.ev.Args[1].LooseString()+", "+lastArg(take.ev)+") burn("+lastArg(burn.ev)+") mint("+ms+")")
 		r.check(must(take) && must(burn) && must(mint), "must-execute", "SwapToERC20", mint.ev.Pos(cx), "take, native burn and ERC20 mint are on every successful path with errors propagated", "one of take/burn/ERC20-mint is not on every successful path of SwapToERC20 (or its error is dropped)")
 		r.check(orderedBefore(burn.ev, mint.ev), "order", "SwapToERC20", mint.ev.Pos(cx), "the native burn dominates the ERC20 mint", "the ERC20 mint is not dominated by the native burn")
@@ -104,7 +104,7 @@ func runC10(cx *Ctx, r *Report) {
 		eb, mint, pay := get("SwapFromERC20", "evm:burn")[0], get("SwapFromERC20", "bank.MintCoins")[0], get("SwapFromERC20", "bank.SendCoinsFromModuleToAccount")[0]
 		bs := strings.Join(argsLoose(eb.ev), " ; ")
 		ok := lastArg(mint.ev) == "coins(msg.WantedAmount)" && lastArg(pay.ev) == "coins(msg.WantedAmount)" && pay.ev.Args[2].LooseString() == "addr(msg.Receiver)" &&
-			strings.Contains(bs, "getTokenByMinUnit(keeper, msg.WantedAmount.Denom)#0.Contract") && strings.Contains(bs, "addr(msg.Sender)") && strings.Contains(bs, "math.Int.BigInt(msg.WantedAmount.Amount)")
+			recordFieldKeyedBy(eb.ev.Args, "Contract", "msg.WantedAmount.Denom") && strings.Contains(bs, "addr(msg.Sender)") && strings.Contains(bs, "math.Int.BigInt(msg.WantedAmount.Amount)")
 		r.check(ok, "provenance", "SwapFromERC20", eb.ev.Pos(cx), "burn(contract of wanted denom, signer, wanted.Amount), then mint coins(msg.WantedAmount) and pay them to msg.Receiver", "SwapFromERC20 endpoints/amounts differ: burn("+bs+") mint("+lastArg(mint.ev)+") pay("+pay.ev.Args[2].LooseString()+", "+lastArg(pay.ev)+")")
 		r.check(must(eb) && must(mint) && must(pay), "must-execute", "SwapFromERC20", eb.ev.Pos(cx), "ERC20 burn, native mint and payout are on every successful path with errors propagated", "one of ERC20-burn/mint/payout is not on every successful path of SwapFromERC20 (or its error is dropped)")
 		r.check(orderedBefore(eb.ev, mint.ev), "order", "SwapFromERC20", mint.ev.Pos(cx), "the ERC20 burn dominates the native mint", "the native mint is not dominated by the ERC20 burn")
@@ -179,7 +179,20 @@ func runC10(cx *Ctx, r *Report) {
 		strictB, strictM := burn.ev.Args[len(burn.ev.Args)-1].String(), mint.ev.Args[len(mint.ev.Args)-1].String()
 		same := strings.HasSuffix(strings.TrimSuffix(strictB, ")"), "#0") && strings.HasSuffix(strings.TrimSuffix(strictM, ")"), "#1") &&
 			strings.TrimSuffix(strings.TrimSuffix(strictB, ")"), "#0") == strings.TrimSuffix(strings.TrimSuffix(strictM, ")"), "#1")
-		ok := same && lastArg(take.ev) == b && lastArg(pay.ev) == m && take.ev.Args[1].LooseString() == "addr(msg.Sender)" && strings.Contains(b, "(keeper, msg.FeePaid)#0") &&
+		same = same && strings.Contains(b, "(keeper, msg.FeePaid)#0")
+		if !same {
+			// the computing helper seen through: both amounts come out of one LossLessSwap
+			// call over msg.FeePaid.Amount (result #0 burned, #1 minted)
+			isLLS := func(t *Term) bool {
+				return t.Op == "extract" && len(t.Args) == 1 && t.Args[0].Op == "call" && t.Args[0].Name == "token/types.LossLessSwap"
+			}
+			tb := findSub(burn.ev.Args[len(burn.ev.Args)-1], isLLS)
+			tm := findSub(mint.ev.Args[len(mint.ev.Args)-1], isLLS)
+			sameInvocation := tb != nil && tm != nil && tb.Args[0].fr != nil && tm.Args[0].fr != nil && tb.Args[0].src == tm.Args[0].src && tb.Args[0].fr.Call == tm.Args[0].fr.Call
+			same = sameInvocation && tb.Name == "0" && tm.Name == "1" && tb.Args[0].String() == tm.Args[0].String() &&
+				len(tb.Args[0].Args) > 0 && tb.Args[0].Args[0].LooseString() == "msg.FeePaid.Amount" && recordFieldKeyedBy(burn.ev.Args, "MinUnit", "msg.FeePaid.Denom")
+		}
+		ok := same && lastArg(take.ev) == b && lastArg(pay.ev) == m && take.ev.Args[1].LooseString() == "addr(msg.Sender)" &&
 			strings.Contains(pay.ev.Args[2].LooseString(), "addr(msg.Sender)")
 		r.check(ok, "provenance", "SwapFeeToken", burn.ev.Pos(cx), "burned = result #0 and minted = result #1 of one computation over msg.FeePaid; signer pays burned, recipient (or signer) receives minted", "SwapFeeToken provenance differs: take "+lastArg(take.ev)+" burn "+b+" mint "+m+" pay "+lastArg(pay.ev)+" to "+pay.ev.Args[2].LooseString())
 		r.check(must(take) && must(burn) && must(mint) && must(pay), "must-execute", "SwapFeeToken", burn.ev.Pos(cx), "all four effects are on every successful path", "an effect of SwapFeeToken is not on every successful path")
@@ -373,4 +386,66 @@ func (cx *Ctx) lossLessFormula(r *Report) {
 	}
 	r.Extra["lossless_paths"] = len(combos)
 	_ = nOK
+}
+
+// recordFieldKeyedBy: one of the terms holds the field `field` of a stored token
+// record whose lookup depends on the request only through `key` (whatever getters
+// the lookup goes through): the contract / unit of exactly the coin's denom.
+func recordFieldKeyedBy(ts []*Term, field, key string) bool {
+	for _, t := range ts {
+		f := findSub(t, func(x *Term) bool { return x.Op == "field" && x.Name == field && len(x.Args) == 1 && x.Args[0].Op != "param" })
+		if f == nil {
+			continue
+		}
+		lv := map[string]bool{}
+		pathLeaves(f.Args[0], lv)
+		ok, calls := len(lv) > 0, 0
+		for l := range lv {
+			if l != key && l != "keeper" && l != "ctx" {
+				ok = false
+			}
+		}
+		// the record comes out of the token keeper's own lookups
+		var walk func(x *Term)
+		walk = func(x *Term) {
+			if x == nil {
+				return
+			}
+			if x.Op == "call" && x.Site.IsValid() {
+				calls++
+				if !strings.HasPrefix(x.Name, "token/keeper.Keeper.") && !strings.HasPrefix(x.Name, "out:codec.") && !strings.HasPrefix(x.Name, "token/types") {
+					ok = false
+				}
+			}
+			for _, a := range x.Args {
+				walk(a)
+			}
+		}
+		walk(f.Args[0])
+		if ok && lv[key] && calls > 0 {
+			return true
+		}
+	}
+	return false
+}
+
+// pathLeaves: the leaves of a term, with access paths rooted at a parameter
+// (msg.Amount.Denom) kept whole.
+func pathLeaves(t *Term, out map[string]bool) {
+	if t == nil {
+		return
+	}
+	isPath := func(x *Term) bool {
+		for x.Op == "field" && len(x.Args) == 1 {
+			x = x.Args[0]
+		}
+		return x.Op == "param" || x.Op == "free"
+	}
+	if len(t.Args) == 0 || (t.Op == "field" && isPath(t)) {
+		out[t.LooseString()] = true
+		return
+	}
+	for _, a := range t.Args {
+		pathLeaves(a, out)
+	}
 }
